@@ -16,6 +16,7 @@ import (
 	"regexp"
 	"strings"
 	"time"
+	_ "time/tzdata"
 	"unsafe"
 
 	"github.com/philpearl/avro"
@@ -292,6 +293,7 @@ func runC18(r *Run) {
 	}
 	st := &c18state{r: r, seen: map[string]bool{}}
 	rng := r.Rng
+	c18LocalZones(r)
 
 	// (1) grammar-directed: every fraction length 0..25 x both separators x zone shapes
 	zones := []string{"Z", "+00:00", "-00:00", "+23:59", "-23:59", "+05:30", "-07:00", "+14:00"}
@@ -938,6 +940,50 @@ func runC19(r *Run) {
 			r.Add(cApp("KLongRead", cZ(u.mult), cZ(q.Int64()), back.coq()), map[string]any{"kind": "long-read", "unit": u.name, "l": q.Int64(), "impl": back}, fmt.Sprintf("long-read/%s/%d", u.name, q.Int64()))
 			if !back.same(want) {
 				r.Fail(id, "other-long-roundtrip", fmt.Sprintf("%s of %s written as %s reads back as %+v, want the instant floored to the unit %+v", u.name, descTime(t), q, back, want), replay)
+			}
+		}
+	}
+}
+
+// c18LocalZones: the result does not depend on the process's local time zone.  With
+// time.Local set to zones that have daylight saving, timestamps carrying the zone's
+// offsets of either season, on dates of both seasons, decode to the instant and offset
+// the text states (what time.Parse gives).
+func c18LocalZones(r *Run) {
+	saved := time.Local
+	defer func() { time.Local = saved }()
+	for _, name := range []string{"America/New_York", "Europe/Berlin", "Australia/Sydney", "Asia/Kolkata"} {
+		loc, err := time.LoadLocation(name)
+		if err != nil {
+			r.Notes = append(r.Notes, "zone database not available ("+err.Error()+"): local-zone cases skipped")
+			return
+		}
+		time.Local = loc
+		offs := map[int]bool{}
+		for _, m := range []time.Month{time.January, time.July} {
+			_, o := time.Date(time.Now().Year(), m, 15, 12, 0, 0, 0, loc).Zone()
+			offs[o] = true
+		}
+		_, now := time.Now().In(loc).Zone()
+		offs[now] = true
+		for o := range offs {
+			for _, date := range []string{"2026-01-15", "2026-07-15", "2026-11-30", "2021-03-14", "1999-10-31", "2038-04-04"} {
+				sign, a := '+', o
+				if a < 0 {
+					sign, a = '-', -a
+				}
+				text := fmt.Sprintf("%sT12:00:00.5%c%02d:%02d", date, sign, a/3600, a%3600/60)
+				got := implParseTime(text)
+				ref, perr := time.Parse(time.RFC3339Nano, text)
+				r.Count("local-zone/" + name)
+				if perr != nil {
+					continue
+				}
+				want := tmRes{Class: "ok", S: ref.Unix(), N: int64(ref.Nanosecond()), Off: int64(o)}
+				if !got.same(want) {
+					r.Fail(-1, "other-local-zone", fmt.Sprintf("with time.Local = %s, %q decodes to %+v; the text says %+v", name, text, got, want),
+						map[string]any{"kind": "local-zone", "zone": name, "text": text})
+				}
 			}
 		}
 	}
